@@ -255,6 +255,11 @@ Definition add_err (e : errk) (l : list errk) : list errk :=
   if existsb (errk_eqb e) l then l else e :: l.
 Definition union_err (l1 l2 : list errk) : list errk := fold_right add_err l2 l1.
 
+(* a pending conflict that is still there at export: unequal atoms / incompatible shapes raise a
+   non-mergeable error, unequal arrays a failed equality contract (arrays are merged by applying
+   [contract.Equal]) *)
+Definition conflict_errs : list errk := [ENonMergeable; EBlame].
+
 Section Export.
 Variable sat : cid -> J -> bool.
 
@@ -262,13 +267,13 @@ Fixpoint exportD (n : nat) (d : D) : res :=
   match n with
   | 0 => match d with
          | DAtom a => inl (JAtom a)
-         | DTop => inr [ENonMergeable]
+         | DTop => inr conflict_errs
          | _ => inr [EFuel]
          end
   | S n' =>
       match d with
       | DAtom a => inl (JAtom a)
-      | DTop => inr [ENonMergeable]
+      | DTop => inr conflict_errs
       | DVar _ a =>
           (* a variant with an argument is forced, then rejected by the serializer *)
           match exportD n' a with
